@@ -9,6 +9,7 @@ import os
 import re
 import sys
 import threading
+import time
 
 import z3
 
@@ -375,6 +376,7 @@ class Exec:
         self.nbox = 0
         self.steps = 0
         self.solver_calls = 0
+        self.solver_s = 0.0
         self.asserts = 0
         self.events = []
         self.depth = 0
@@ -382,6 +384,12 @@ class Exec:
         self.threads = None        # multi-thread scheduler state (set by run_threads)
         self.syms = {}
         self.boxes = []
+
+    def _check(self, *args):
+        t = time.perf_counter()
+        r = self.solver.check(*args)
+        self.solver_s += time.perf_counter() - t
+        return r
 
     # ---- symbols
     def sym_int(self, name):
@@ -408,7 +416,7 @@ class Exec:
                         continue
                     else:
                         self.solver_calls += 1
-                        if self.solver.check(c) == z3.sat:
+                        if self._check(c) == z3.sat:
                             feas.append(i)
             if not feas:
                 raise Infeasible()
@@ -442,14 +450,14 @@ class Exec:
             if cond:
                 return None
             self.solver_calls += 1
-            if self.solver.check() == z3.sat:
+            if self._check() == z3.sat:
                 return self.solver.model()
             return None
         cond = z3.simplify(cond)
         if z3.is_true(cond):
             return None
         self.solver_calls += 1
-        r = self.solver.check(z3.Not(cond))
+        r = self._check(z3.Not(cond))
         if r == z3.sat:
             return self.solver.model()
         if r == z3.unknown:
@@ -471,18 +479,18 @@ class Exec:
         out = []
         if bad:
             self.solver_calls += 1
-            if self.solver.check() == z3.sat:
+            if self._check() == z3.sat:
                 m = self.solver.model()
                 out += [(i, m) for i in bad]
         if sym:
             self.solver_calls += 1
-            r = self.solver.check(z3.Not(z3.And([c for _, c in sym])))
+            r = self._check(z3.Not(z3.And([c for _, c in sym])))
             if r == z3.unknown:
                 raise Unsupported('solver returned unknown')
             if r == z3.sat:
                 for i, c in sym:
                     self.solver_calls += 1
-                    if self.solver.check(z3.Not(c)) == z3.sat:
+                    if self._check(z3.Not(c)) == z3.sat:
                         out.append((i, self.solver.model()))
         return sorted(out, key=lambda t: t[0])
 
@@ -954,7 +962,7 @@ class Exec:
 
 def explore(ex: Exec, harness, max_paths=10 ** 9):
     """DFS over the decision tree by re-execution.  harness(ex) -> list of findings (or None)."""
-    stats = dict(paths=0, infeasible=0, findings=[], steps=0, solver_calls=0, asserts=0)
+    stats = dict(paths=0, infeasible=0, findings=[], steps=0, solver_calls=0, asserts=0, solver_s=0.0)
     prefix = []
     while True:
         ex.reset(prefix)
@@ -969,6 +977,7 @@ def explore(ex: Exec, harness, max_paths=10 ** 9):
         stats['steps'] += ex.steps
         stats['solver_calls'] += ex.solver_calls
         stats['asserts'] += ex.asserts
+        stats['solver_s'] += ex.solver_s
         tr = ex.trace
         while tr:
             ch, feas = tr[-1]
